@@ -1081,6 +1081,42 @@ class Inliner:
         ast.fix_missing_locations(fd)
         return fd
 
+    def _name_fresh_receivers(self, fn: ast.AST) -> None:
+        """`return _Worker(a, b).run(c)`  ->  `_sv_objN = _Worker(a, b); return _sv_objN.run(c)` for new private classes:
+        the instance gets a name, so that its methods can be expanded and its fields scalarised like any local's."""
+        if not self.new_classes:
+            return
+        lists = []
+        for x in ast.walk(fn):
+            for fld in ("body", "orelse", "finalbody"):
+                sub = getattr(x, fld, None)
+                if isinstance(sub, list) and sub and isinstance(sub[0], ast.stmt):
+                    lists.append(sub)
+            if isinstance(x, ast.Try):
+                lists += [h.body for h in x.handlers]
+        for lst in lists:
+            i = 0
+            while i < len(lst):
+                st = lst[i]
+                i += 1
+                root = getattr(st, "value", None) if isinstance(st, (ast.Assign, ast.AnnAssign, ast.Return, ast.Expr)) else None
+                if root is None:
+                    continue
+                # only the outermost call of the statement's value: evaluation order is unchanged
+                c = root
+                if not (isinstance(c, ast.Call) and isinstance(c.func, ast.Attribute) and isinstance(c.func.value, ast.Call)
+                        and isinstance(c.func.value.func, ast.Name) and c.func.value.func.id in self.new_classes):
+                    continue
+                self._obj_tmp = getattr(self, "_obj_tmp", 0) + 1
+                tmp = f"_sv_obj{self._obj_tmp}"
+                a = ast.Assign(targets=[ast.Name(id=tmp, ctx=ast.Store())], value=c.func.value, type_comment=None)
+                ast.copy_location(a, st)
+                c.func.value = ast.copy_location(ast.Name(id=tmp, ctx=ast.Load()), c.func.value)
+                ast.fix_missing_locations(a)
+                ast.fix_missing_locations(st)
+                lst.insert(i - 1, a)
+                i += 1
+
     def _type_names(self, fn: ast.AST) -> None:
         """names in fn known to hold an instance of a new private class (constructed here or annotated parameter)."""
         self._typed: Dict[str, str] = {}
@@ -1225,6 +1261,7 @@ class Inliner:
         self._n_closures = 0
         self._nested_done: Dict[str, _Info] = {}
         for q, inf in list(self.funcs.items()):
+            self._name_fresh_receivers(inf.node)
             self._type_names(inf.node)
             inf.node.body = self._closure_convert(inf.node.body, inf.cls)
         for _ in range(max_rounds):
